@@ -235,6 +235,8 @@ def c01(ctx):
     # whole file / line / word: transcribed from the engine (the documents are silent about starts inside a unit); the
     # expectation is firm, and compared, only on texts where a file, line or word really starts at the attempt
     ctx.replay("C01-whole-units", ctx.gen_cases("C03W"), FIELDS["C01"])
+    # named loops find what the unnamed loop finds (minimum, maximum, greedy/fewest; nested named loops)
+    ctx.replay("C01-named-loops", ctx.gen_cases("C03N"), FIELDS["C01"])
     # (2b) seeded random programs beyond the structured scope (any nesting up to 9 nodes)
     rc = random_cases(ctx.seed, 400 if quick else 4000, with_caps=False)
     rexps, _, rc = vm_oracle(ctx, "random", rc, max_steps=20000, invariants=("MatchWF", "NoStuck", "StepBound"), drop_expensive=True)
